@@ -55,6 +55,9 @@ func (p *Program) InferKinds(pkgs []string, seeds map[types.Object]string, funcS
 			ast.Inspect(file, func(n ast.Node) bool {
 				switch s := n.(type) {
 				case *ast.AssignStmt:
+					if len(s.Rhs) == 1 && len(s.Lhs) > 1 && (s.Tok == token.ASSIGN || s.Tok == token.DEFINE) {
+						add(s.Lhs[0], s.Rhs[0]) // v, err := f(...): the value result carries the role
+					}
 					if len(s.Lhs) == len(s.Rhs) {
 						for i := range s.Lhs {
 							if s.Tok == token.ASSIGN || s.Tok == token.DEFINE {
